@@ -26,7 +26,7 @@ def dy(rng, hi=24):
 
 
 # sha256 of lean/FairModel/Generated/FrameSrc.lean as translated from the pinned tree (see c14.PINNED_SRC_SHA256 for the rule)
-PINNED_FRAMESRC_SHA256 = "3c7ea25009112ec4957c80800624a77a455fea221e222a83cc2cc6613798e043"
+PINNED_FRAMESRC_SHA256 = "69da0cca8d8d38ab7ee2ee22e45dec40eb0b15bd7a7bbe0036855f5751956323"
 _SRC_STATE = {}
 
 
@@ -180,15 +180,25 @@ def names_oracle(base, spec, n):
 @register
 class CHECK(Check):
     pid = "C01"
-    technique = ("Lean 4 theorems over a generic model of DisaggregatedResult._apply_functions (arbitrary metric function) "
-                 "+ compiled-driver correspondence with MetricFrame.by_group/overall/sensitive_levels/control_levels")
+    technique = ("Lean 4 theorems over a generic model of DisaggregatedResult._apply_functions (arbitrary metric function), over "
+                 "the TRANSLATION of _apply_functions / create / apply_to_dataframe / AnnotatedMetricFunction.__call__ / the "
+                 "sample-parameter loop / _extract_result (lifter frame.py -> Generated/FrameSrc.lean, proved equal to the model), "
+                 "over a multi-metric frame model and a feature-name model (lifter feature_names.py) + compiled-driver "
+                 "correspondence with MetricFrame.by_group/overall/sensitive_levels/control_levels")
     level_text = ("Theorems (all row lists, any number of control/sensitive columns, ARBITRARY metric function f): every "
                   "by_group entry is f on exactly the rows carrying that tuple (params travel with the row), NaN iff the tuple "
                   "has no rows; index = Cartesian product of observed values (observed values for one column), duplicate "
                   "free, sorted, control columns first; overall = f on all rows / on each control stratum; the non-empty "
                   "cells partition the rows (permutation). Tie: real MetricFrame vs the compiled Lean model over a pool of "
                   "14 metric callables incl. injective row-fingerprint metrics, 1-3 sensitive x 0-2 control features, all "
-                  "feature container types; independent Fraction oracle decides violations.")
+                  "feature container types; independent Fraction oracle decides violations. Translator tie: src_*_eq_model identify "
+                  "the translated create/_apply_functions with Frame.byGroup/overall and every clause is restated for the "
+                  "translation. Multi-metric frames (dict of any number of metrics, one shared all_data table, generated column "
+                  "names): every column equals the single-metric frame of that function with exactly its own sample params "
+                  "(multi_column_eq_single) under ColsOK = generated column names pairwise distinct; without it the statement is "
+                  "false of the code (multi_crosstalk_witness = finding F17). Accessor result types from the lifted "
+                  "_extract_result. Feature names: pairwise distinct strings whenever construction succeeds, which containers are "
+                  "rejected, defaults never collide (names_*).")
     design_ref = "DESIGN.md section 4, C01"
     quick_cases = 1400
     thorough_cases = 8000
@@ -202,6 +212,11 @@ class CHECK(Check):
             "per-metric sample params (0..2 each: sample_weight / a / ids; integer or dyadic); containers list/ndarray/"
             "Series/DataFrame/dict, optionally with a permuted pandas index; feature names never 'y_true'/'y_pred' (those "
             "are rejected with KeyError by fairlearn - a rejection, not a wrong cell); NaN feature values not generated. "
+            "30% of the cases are turned into dicts of 1..4 metrics (names incl. prefixes of each other) with DIFFERENT sample "
+            "params per metric, one metric without any, the free-keyword metric kwsum, parameterless metrics with or without an "
+            "entry in sample_params, rarely (4%) colliding column names (KNOWN-FINDING F17); 12% are feature-name cases: "
+            "containers Series(name None/str/int), DataFrame (duplicate / int labels), dict (int keys, ragged), list, list of "
+            "lists, 1-d/2-d/3-d arrays for sensitive and optional control features, 1..4 rows. "
             "distinct = distinct (features, data, metric specs); non-trivial = >= 2 rows. thorough additionally "
             "enumerates ALL assignments of <= 5 rows to 2x3 sensitive levels and of <= 5 rows to 2 control x 3 sensitive levels")
     explanation = ("theorems over Model/Frame.lean for an arbitrary metric function (all inputs, no size bound); correspondence: "
@@ -211,7 +226,10 @@ class CHECK(Check):
     trusted = ("pandas groupby/reindex/MultiIndex.from_product and np.unique ordering are modelled by 'sorted distinct values' / "
                "'rows with equal key' (Frame.uniq, Frame.rowsOf) and checked only through the correspondence",
                "integer feature values are passed to the Lean model as zero-padded strings (order preserving for 0..999)",
-               "sklearn confusion_matrix / accuracy_score are modelled by their definitions (BaseMetrics, MetricPool)")
+               "sklearn confusion_matrix / accuracy_score are modelled by their definitions (BaseMetrics, MetricPool)",
+               "the pandas primitives of Model/FramePrims.lean (data[col], groupby(names).apply, np.unique, MultiIndex.from_product, "
+               "reindex, column assignment = shadowing, dict insertion) are specifications",
+               "harness/lifters/frame.py and feature_names.py: the Python-ast -> Lean translation of the lifted bodies/constants")
     assumptions = ("feature values are strings or non-negative ints < 1000, one type per column, no NaN/None feature values",
                    "sample weights are positive", "metric functions are deterministic functions of their arguments")
 
@@ -633,8 +651,16 @@ class CHECK(Check):
         probs = []
         t = line.split(" ")
         names = self._names(case)
-        if line == "bad-op" or len(t) != 2 + 3 * len(names):
+        if line == "bad-op" or len(t) != 4 + 3 * len(names):
             return [Problem("harness", f"fm.eval output {line[:200]!r}")]
+        mtypes = (t[-2], t[-1])
+        if mtypes != EXPECTED_TYPES[(case["bare"], len(case["cf"]) > 0)]:
+            msg = f"accessor types of the model {mtypes} vs the documented table"
+            probs.append(Problem("correspondence", "the translated _extract_result departs from the documented result types "
+                                 "(sources changed): " + msg, "C01.generated-source-vs-oracle") if framesrc_changed()
+                         else Problem("harness", msg))
+        if tuple(o["types"]) != mtypes:
+            probs.append(Problem("correspondence", f"result types {o['types']} vs model {mtypes}", "C01.result_types"))
         bkeys = [tuple(k) for k in mc.parse_keys(t[0])]
         okeys = [tuple(k) for k in mc.parse_keys(t[1])]
         if len(case["cf"]) == 0:
